@@ -79,6 +79,21 @@ def handle (name : String) (args impl : List String) : Option (Except String (St
         else if alloc ≤ flatBound t bs.length then pure (obs, "ok")
         else pure (obs, s!"FAIL:allocated-{alloc}-bytes-for-{bs.length}-input-bytes-bound-{flatBound t bs.length}-model-units-{flatUnits t bs}")
       | _ => pure ("-", "FAIL:unexpected-observation"))
+  | "fl.memr" => some (do
+      -- recycled destination (slices of the given length / capacity allocated outside the
+      -- measured window): recycling may only lower the allocation, the same bound applies
+      match args with
+      | _ :: _ :: args =>
+        let (t, rest) ← runP ty args
+        let (bs, _) ← runP hexTok rest
+        match impl with
+        | ["ok", n, oc] =>
+          let alloc := n.toNat?.getD 0
+          if oc == "panic" then pure ("-", "FAIL:panic")
+          else if alloc ≤ flatBound t bs.length then pure ("-", "ok")
+          else pure ("-", s!"FAIL:allocated-{alloc}-bytes-for-{bs.length}-input-bytes-into-a-recycled-destination-bound-{flatBound t bs.length}")
+        | _ => pure ("-", "FAIL:unexpected-observation")
+      | _ => throw "bad fl.memr args")
   | _ => none
 
 end Driver.OpsMem
